@@ -29,6 +29,7 @@ fn main() {
     let code = match args.get(1).map(|s| s.as_str()) {
         Some("run") => cmd_run(&args[2..]),
         Some("replay") => cmd_replay(&args[2..]),
+        Some("resave") => cmd_resave(&args[2..]),
         Some("hashes") => cmd_hashes(&args[2..]),
         Some("selfreplay") => cmd_selfreplay(&args[2..]),
         Some("tally") => cmd_tally(&args[2..]),
@@ -182,6 +183,68 @@ fn do_replay(path: &str) -> Result<ReplayOutcome, String> {
         hash_expected: doc["trace_hash"].as_str().unwrap_or("").to_string(),
         hash_got: format!("{:016x}", rep.hash),
     })
+}
+
+/// `resave <in> <out>`: re-executes the choices of a replay file and writes
+/// a file that records what the run shows NOW (class, message, trace, hash).
+/// Maintenance helper for replay files that predate a harness change.
+fn cmd_resave(args: &[String]) -> i32 {
+    let (Some(inp), Some(outp)) = (args.first(), args.get(1)) else {
+        return 2;
+    };
+    let s = match std::fs::read_to_string(inp) {
+        Ok(s) => s,
+        Err(e) => {
+            eprintln!("{inp}: {e}");
+            return 2;
+        }
+    };
+    let mut doc: serde_json::Value = match serde_json::from_str(&s) {
+        Ok(d) => d,
+        Err(e) => {
+            eprintln!("{e}");
+            return 2;
+        }
+    };
+    let Some(spec) = doc["property"].as_str().and_then(props::find) else {
+        return 2;
+    };
+    let tier = match doc["tier"].as_str() {
+        Some("thorough") => Tier::Thorough,
+        _ => Tier::Quick,
+    };
+    let run_seed = doc["run_seed"].as_u64().unwrap_or(0);
+    let choices: Vec<u32> = doc["choices"]
+        .as_array()
+        .map(|a| a.iter().map(|v| v.as_u64().unwrap_or(0) as u32).collect())
+        .unwrap_or_default();
+    let f = props::runner(spec.id, tier);
+    let mut ch = Choices::replay(run_seed, choices);
+    let mut rep = RunReport::new(true);
+    match run_one(&*f, &mut ch, &mut rep) {
+        Ok(Outcome::Violation(v)) => {
+            doc["class"] = v.class.clone().into();
+            doc["message"] = v.message.into();
+            doc["trace_hash"] = format!("{:016x}", rep.hash).into();
+            doc["harness_version"] = HARNESS_VERSION.into();
+            doc["config"] = rep.config.clone().into();
+            doc["choices"] = ch.log.clone().into();
+            doc["trace"] = rep.lines.unwrap_or_default().into();
+            if std::fs::write(outp, serde_json::to_string_pretty(&doc).unwrap()).is_err() {
+                return 2;
+            }
+            println!("resaved {outp} class={}", v.class);
+            0
+        }
+        Ok(_) => {
+            eprintln!("no violation: nothing written");
+            1
+        }
+        Err(e) => {
+            eprintln!("{e}");
+            2
+        }
+    }
 }
 
 /// exit 1: violation reproduced (same class); 0: no violation; 2: diverged.
